@@ -134,7 +134,7 @@ def env_runs(chk):
         env.pop("JAXTYPING_DISABLE", None)
         if v is not None:
             env["JAXTYPING_DISABLE"] = v
-        p = subprocess.run([PY, "-c", ENV_PROBE], capture_output=True, text=True, env=env, timeout=120)
+        p = subprocess.run([PY, "-c", ENV_PROBE], capture_output=True, text=True, env=env, timeout=900)
         return v, (p.stdout.strip().splitlines() or ["?"])[-1]
     with ThreadPoolExecutor(max_workers=8) as ex:
         res = list(ex.map(one, list(spell)))
